@@ -3,17 +3,21 @@
 Real ``NotifierDelay`` over the hal notifier stub; period, creation time and every loop-body duration
 are symbolic.  ``int()`` inside precise_delay is shadowed by a truncation on terms (no source edit).
 """
+import itertools
+
 from engine import symex as sx
 from engine.runner import Spec
 from engine.symex import s_eq
 
 
 class Env:
+    """HAL notifier stub.  Handles are small integers; a cleaned handle number is handed out again by the next
+    initializeNotifier() (as the real HAL does); calls on a handle that is not live return at once."""
     ds_attached = True
 
-    def __init__(self, c):
+    def __init__(self, c, t0=None):
         self.c = c
-        self.t = c.integer("t0", 0, 10 ** 9)
+        self.t = c.integer("t0", 0, 10 ** 9) if t0 is None else t0
         self.alarm = None
         self.stopped = 0
         self.cleaned = 0
@@ -21,6 +25,12 @@ class Env:
         self.inits = 0
         self.updates = []
         self.free_during_wait = None
+        self.base = next(_HANDLES) * 64
+        self.live = set()
+        self.pool = []
+        self.nalloc = 0
+        self.handle = None
+        self.ts_offset = None
 
     def now_us(self):
         return self.t
@@ -28,26 +38,53 @@ class Env:
     def now_s(self):
         return self.t / 1e6
 
+    def time_source_us(self):
+        # RobotController.getTime(): the FPGA clock unless the program installed its own time source (any offset)
+        if self.ts_offset is None:
+            self.ts_offset = self.c.integer("time_source_offset", 0, 10 ** 9)
+        return self.t + self.ts_offset
+
+    # a NotifierDelay left over from an earlier explored path may be finalised (``__del__`` -> ``free()``) while this
+    # path runs: its handle does not belong to this environment and is ignored
+    def _mine(self, h):
+        return isinstance(h, int) and self.base <= h < self.base + 64
+
     def notifier_init(self):
         self.inits += 1
-        return (7, 0)
+        if self.pool:
+            h = self.pool.pop(0)
+        else:
+            h = self.base + self.nalloc
+            self.nalloc += 1
+        self.live.add(h)
+        self.handle = h
+        return (h, 0)
 
     def notifier_update(self, h, t):
         if h is None:
             raise TypeError("updateNotifierAlarm(): incompatible function arguments (handle is None)")
+        if h not in self.live:
+            return
         self.alarm = t
         self.updates.append(t)
 
     def notifier_stop(self, h):
-        self.stopped += 1
+        if self._mine(h):
+            self.stopped += 1
 
     def notifier_clean(self, h):
-        self.cleaned += 1
+        if self._mine(h):
+            self.cleaned += 1
+            if h in self.live:
+                self.live.discard(h)
+                self.pool.append(h)
 
     def notifier_wait(self, h):
         if h is None:
             raise TypeError("waitForNotifierAlarm(): incompatible function arguments (handle is None)")
         self.waits += 1
+        if h not in self.live:
+            return 0
         if self.free_during_wait is not None:
             # another thread frees the notifier while this one is blocked: the HAL wakes the waiter (time 0)
             nd, self.free_during_wait = self.free_during_wait, None
@@ -60,6 +97,9 @@ class Env:
 
     def fms_attached(self):
         return False
+
+
+_HANDLES = itertools.count(7)
 
 
 def path(c, job):
@@ -95,9 +135,7 @@ def path(c, job):
         # the symbolic jobs; this run only guards against drift introduced by float bookkeeping)
         for P in (0.02, 0.005, 0.001, 0.0125, 0.05, 0.1, 0.0205):
             for t0 in (0, 5000000, 1234567):
-                env2 = Env.__new__(Env)
-                env2.c, env2.t, env2.alarm, env2.stopped, env2.cleaned, env2.waits, env2.inits, env2.updates = c, t0, None, 0, 0, 0, 0, []
-                env2.free_during_wait = None
+                env2 = Env(c, t0)
                 wpilib.ENV = env2
                 nd = pd.NotifierDelay(P)
                 Pus = int(P * 1e6)
@@ -115,7 +153,7 @@ def path(c, job):
         G = c.integer("G", 0, 10 ** 12)
         nd = object.__new__(pd.NotifierDelay)
         nd.delay_period = Pus
-        nd._notifier = 7
+        nd._notifier = env.notifier_init()[0]
         nd._expiry_time = G + Pus
         env.alarm = G + Pus
         env.t = c.integer("now", 0, 10 ** 13)
@@ -125,6 +163,45 @@ def path(c, job):
         c.prove("C16.step not-early", env.t >= G + Pus)
         c.prove("C16.step exact-if-body-done", s_eq(env.t, G + Pus), when=(before <= G + Pus))
         c.prove("C16.step invariant-preserved", sx.s_and(s_eq(nd._expiry_time, G + 2 * Pus), s_eq(env.alarm, G + 2 * Pus)))
+        return
+    if kind == "two":
+        # a first delay is used and released, a second one is created (the HAL re-uses the handle number), then the
+        # first object is dropped and collected: the second delay must stay on its own grid
+        import gc
+
+        PA = c.real("PA", 0.001, 100)
+        A = pd.NotifierDelay(PA)
+        env.t = env.t + c.integer("bodyA", 0, 10 ** 9)
+        A.wait()
+        how = c.choose("release", 3)
+        if how == 0:
+            A.free()
+        elif how == 1:
+            with A:
+                pass
+        else:
+            A.free()
+            A.free()
+        env.t = env.t + c.integer("gap", 0, 10 ** 9)
+        P = c.real("P", 0.001, 100)
+        tB = env.t
+        B = pd.NotifierDelay(P)
+        Pus = sx.sym_int(P * 1e6)
+        if env.handle == env.base and env.inits == 2:
+            c.reach("handle-number-reused")
+        drop_at = c.choose("drop_first_at", job["K"] + 1)
+        for k in range(1, job["K"] + 1):
+            if drop_at == k - 1:
+                A = None
+                gc.collect()
+            env.t = env.t + c.integer(f"body{k}", 0, 10 ** 9)
+            before = env.t
+            B.wait()
+            grid = tB + k * Pus
+            c.reach("second-delay-wait")
+            c.prove("C16.grid not-early", env.t >= grid, info=dict(k=k, second_delay=True))
+            c.prove("C16.grid exact-if-body-done", s_eq(env.t, grid), when=(before <= grid), info=dict(k=k, second_delay=True))
+        B.free()
         return
     K = job["K"]
     P = c.real("P", 0.001, 100)
@@ -197,7 +274,8 @@ class C16(Spec):
     design_ref = "DESIGN.md §7 C16"
     clauses = ["C16.grid not-early", "C16.grid exact", "C16.grid alarm", "C16.free", "C16.step", "C16.reject", "C16.eng"]
     stubs = ["hal notifier: waitForNotifierAlarm(handle) returns at max(now, alarm time last programmed); after stop/clean nothing blocks",
-             "wpilib.RobotController.getFPGATime: symbolic integer microseconds",
+             "wpilib.RobotController.getFPGATime: symbolic integer microseconds; RobotController.getTime: FPGA time plus a symbolic offset >= 0 (a user-installed time source)",
+             "handle numbers of cleaned notifiers are re-used by the next initializeNotifier(); calls on a dead handle return at once",
              "builtin int() shadowed inside robotpy_ext.misc.precise_delay by truncation on terms"]
     assumptions = ["period*1e6 evaluated over the reals (the float product is outside the claim)"]
     outside = ["real HAL notifier blocking / threads", "rounding of delay_period * 1e6 in floating point",
@@ -209,7 +287,8 @@ class C16(Spec):
              dict(kind="run", K=3, enter_gap=True, free_at=3, with_block=True)]
         j += [dict(kind="run", K=K, free_at=f, with_block=(f % 2 == 0)) for f in (1, 2, K)]
         j += [dict(kind="run", K=3, free_at=2, with_block=True, raise_in_with=True), dict(kind="eng"),
-              dict(kind="run", K=3, free_at=2, free_while_blocked=True), dict(kind="run", K=2, free_at=1, free_while_blocked=True)]
+              dict(kind="run", K=3, free_at=2, free_while_blocked=True), dict(kind="run", K=2, free_at=1, free_while_blocked=True),
+              dict(kind="two", K=2 if tier == "quick" else 4)]
         return j
 
     def bounds(self, tier):
@@ -217,7 +296,7 @@ class C16(Spec):
                     inductive_step="one wait() from any state with expiry = G + P")
 
     def reach_required(self, tier):
-        return ["wait", "freed", "inductive-step", "reject", "entered-late", "with-left-by-exception", "engineering-values", "freed-while-blocked"]
+        return ["wait", "freed", "inductive-step", "reject", "entered-late", "with-left-by-exception", "engineering-values", "freed-while-blocked", "second-delay-wait", "handle-number-reused"]
 
     def path_fn(self, c, job):
         path(c, job)
